@@ -84,11 +84,19 @@ def q_key(q):
         'D' if q['distinct'] else '', 'L%d' % q['limit']])
 
 
+class NoDescription(Exception):
+    pass
+
+
 def run_query(conn, stmt, params=None):
     """returns ('ok', description, rows) | ('rejected', exception) | ('error', exception)"""
     try:
         cur = conn.execute(stmt, params)
-        return 'ok', cur.description, cur.fetchall()
+        desc, rows = cur.description, cur.fetchall()
+        if desc is None:
+            # a SELECT that executed has a description (C07 / C10), rows or no rows: report it as a failed execution
+            return 'error', NoDescription('cursor.description is None after executing a SELECT (%d rows)' % len(rows)), None
+        return 'ok', desc, rows
     except beanquery.ProgrammingError as ex:        # ParseError / CompilationError
         return 'rejected', ex, None
     except Exception as ex:  # noqa
